@@ -518,7 +518,9 @@ def run(chk):
     from . import c08
     chk.rule('C08.L', 'shared with C08: the label-index cache is local to the invocation (generated label names repeat across files and functions)')
     chk.rule('C08.E', 'shared with C08: abstract execution of the statement loop')
-    chk.guard('C08.L', c08.check_labels, chk)
+    chk.rule('C08.F', 'shared with C08: hand-built jump-level models with user labels evaluated whole (label lookup per statement list)')
+    models_ok = chk.guard('C08.F', c08.check_models, chk)
+    chk.readback(models_ok)('C08.L', c08.check_labels, chk)
     chk.guard('C08.E', c08.check_step, chk)
     # value comparison used by == on lines (shared C11.F)
     from . import c11
